@@ -16,6 +16,7 @@ from props import _simlib as S
 from props._c16_snap import snap, close
 from props._c16_fresh import fresh
 from props import _c16_pulses as PN
+from props import _c16_args as AR
 
 
 # ------------------------------------------------------------------------------------------
@@ -388,8 +389,30 @@ def chain_plan(w, setup):
     return plan
 
 
-def mutate_result(res):
-    """change, in place, everything a user can reach through the result's gates"""
+_PENDING = None
+
+
+def pending():
+    """repairs proposed by this check that are not (yet) in the tree under test (recognised by the exact unrepaired
+    statement in the source, see _c16_args.pending): their random streams start with the repair; the fixed witnesses are
+    replayed from known_findings.json regardless"""
+    global _PENDING
+    if _PENDING is None:
+        try:
+            _PENDING = AR.pending(paths.REPO)
+        except Exception:
+            _PENDING = set()
+    return _PENDING
+
+
+def mutate_result(res, states=False):
+    """change, in place, everything a user can reach through the result's gates (and, with `states`, through its
+    input_states / output_states lists)"""
+    if states:
+        for attr in ("input_states", "output_states"):
+            l = getattr(res, attr, None)
+            if isinstance(l, list) and l:
+                l[0] = "MUTATED"
     for g in res.gates:
         for attr in ("targets", "controls", "classical_controls"):
             l = getattr(g, attr, None)
@@ -414,7 +437,12 @@ def oracle_share(w):
         except Exception:
             continue
         sig = sharing_signature(qc, res)
-        mutate_result(res)
+        states = bool(w.get("states", "C16-7" not in pending()))
+        st_before = (list(qc.input_states), list(qc.output_states))
+        mutate_result(res, states=states)
+        if (list(qc.input_states), list(qc.output_states)) != st_before:
+            return True, (f"{name}: changing input_states / output_states of the returned circuit in place changed the "
+                          f"argument's: {st_before[0]} -> {qc.input_states} (the result holds the argument's list objects)")
         if gates_view(qc) != view or snap(qc) != before:
             shared = sorted({x for x in sig if x != "n"})
             j = next((i for i, (a, b) in enumerate(zip(view, gates_view(qc))) if a != b), None)
@@ -425,6 +453,7 @@ def oracle_share(w):
 
 W_SHARE_REV = {"kind": "share", "n": 2, "ncb": 0, "transforms": ["reverse_circuit"],
                "gates": [{"name": "CNOT", "targets": [1], "controls": [0], "arg": None, "cc": None, "ccv": None}]}
+W_SHARE_STATES = dict(W_SHARE_REV, states=True)
 W_SHARE_CHAIN = {"kind": "share", "n": 3, "ncb": 0, "transforms": ["to_chain_structure_circular"],
                  "gates": [{"name": "RX", "targets": [1], "controls": None, "arg": 0.5, "cc": None, "ccv": None},
                            {"name": "CNOT", "targets": [2], "controls": [0], "arg": None, "cc": None, "ccv": None}]}
@@ -1026,6 +1055,10 @@ def oracle(w):
         return oracle_noise(w)
     if w["kind"] == "pnoise":
         return PN.oracle_pnoise(w)
+    if w["kind"] == "runargs":
+        return AR.oracle_runargs(w)
+    if w["kind"] == "plotlabels":
+        return AR.oracle_plotlabels(w)
     return oracle_device(dev_of(w))
 
 
@@ -1426,6 +1459,20 @@ class C16(PropertyCheck):
                          "returning tuple / list / None) x 2-5 noisy evaluations: pulses returned and pulses held after "
                          "every call as (ideal, coherent-noise tokens, Lindblad-noise tokens) against Model/SimPulse.lean")
 
+        pend = sorted(pending())
+        if pend:
+            checks = []
+            for tag, ws in (("C16-6", (AR.W_COPS, AR.W_OPTS)), ("C16-7", (W_SHARE_STATES,)), ("C16-8", (AR.W_LABELS,))):
+                if tag in pend:
+                    for w_ in ws:
+                        try:
+                            f_, d_ = oracle(w_)
+                        except Exception as e:
+                            f_, d_ = None, repr(e)
+                        checks.append(f"{tag}: {'reproduces' if f_ else 'does not reproduce'}: {d_}")
+            res.notes.append("repairs proposed by this check and not in the tree under test (their random streams start "
+                             "with the repair; see fixes/C16-findings.json): " + " | ".join(checks))
+            ctx.log("note: pending repairs " + ", ".join(pend) + " — " + " | ".join(checks)[:600])
         # 7. stored pulses under get_qobjevo padding: the C14 model's padCoeff / stepAt on the real arrays
         res.notes.append("pulse padding: see pulses_snap (pulses compared as functions of time; theorem "
                          "C16.pulse_padding_same_function on the C14 model)")
@@ -1444,7 +1491,15 @@ class C16(PropertyCheck):
     def _sweep(self, ctx, budget_s, count):
         rng = ctx.rng
         t0 = time.time()
-        for w in (W_ALIAS, W_PHASE, W_GETTER, W_DRAW, W_QASM, W_SHAPE, W_SHARE_REV, W_SHARE_CHAIN, W_NOISE) + tuple(PN.FIXED):
+        fixed = (W_ALIAS, W_PHASE, W_GETTER, W_DRAW, W_QASM, W_SHAPE, W_SHARE_REV, W_SHARE_CHAIN, W_NOISE) + tuple(PN.FIXED)
+        pend = pending()
+        if "C16-6" not in pend:
+            fixed += (AR.W_COPS, AR.W_OPTS)
+        if "C16-7" not in pend:
+            fixed += (W_SHARE_STATES,)
+        if "C16-8" not in pend:
+            fixed += (AR.W_LABELS,)
+        for w in fixed:
             f, d = oracle(w)
             if f:
                 yield w, d
@@ -1489,6 +1544,19 @@ class C16(PropertyCheck):
                 f, d = oracle(w)
                 if f:
                     yield w, d
+                continue
+            if 0.64 <= r < 0.70:
+                if r < 0.67:
+                    w = None if "C16-6" in pend else AR.rand_runargs(rng)
+                else:
+                    w = None if "C16-8" in pend else AR.rand_plotlabels(rng)
+                if w is not None:
+                    try:
+                        f, d = oracle(w)
+                    except Exception as e:
+                        f, d = False, "not applicable: " + repr(e)[:100]
+                    if f:
+                        yield w, d
                 continue
             if r < 0.64:
                 w = PN.gen_pnoise(rng)
